@@ -27,44 +27,24 @@ func C21(c *Ctx) {
 		if fn == nil {
 			continue
 		}
-		ap := need(c, r1, fn, false, "wal.AppendRecords", Named("wal.(*Manager).AppendRecords"), 1)
-		syncs := Calls(fn, false, Named("wal.(*Manager).Sync"))
-		for ai, a := range ap {
-			bad, n := false, 0
-			why := ""
-			for _, r := range SuccessReturns(fn) {
-				// success returns reachable from the append
-				if reach, _ := CutReach(fn, a.(ssa.Instruction), r, nil, nil); !reach {
+		// the record may be appended and synced by fn itself or by a same-package helper it calls
+		appendM := Named("wal.(*Manager).AppendRecords")
+		var ap []ssa.CallInstruction
+		if direct := Calls(fn, false, appendM); len(direct) > 0 {
+			ap = direct
+			appendThenSync(c, r1, fn)
+		} else {
+			for _, ci := range Calls(fn, false, func(cc *ssa.CallCommon) bool { return true }) {
+				h := StaticFn(ci.Common())
+				if h == nil || h.Blocks == nil || h == fn || FuncPkgPath(h) != FuncPkgPath(fn) || len(Calls(h, false, appendM)) == 0 {
 					continue
 				}
-				// must pass a Sync whose error was tested nil
-				reach, m := CutReach(fn, a.(ssa.Instruction), r, instrs(syncs), nil)
-				n += m
-				if reach {
-					bad, why = true, "a success return is reachable after AppendRecords without wal.Sync"
-					continue
-				}
-				for _, s := range syncs {
-					if rr, _ := CutReach(fn, s.(ssa.Instruction), r, nil, nil); !rr {
-						continue
-					}
-					ev := ErrResult(s)
-					if ev == nil {
-						bad, why = true, "the error of wal.Sync is discarded"
-						continue
-					}
-					cut := map[[2]*ssa.BasicBlock]bool{}
-					for _, e := range NilEdges(fn, FlowSet(ev)) {
-						cut[e.Nil] = true
-					}
-					if rr, k := CutReach(fn, s.(ssa.Instruction), r, nil, cut); rr {
-						n += k
-						bad, why = true, "a success return is reachable although wal.Sync failed"
-					}
-				}
+				c.Touch(h)
+				appendThenSync(c, r1, h)
+				ap = append(ap, ci)
 			}
-			c.Decide(!bad, r1, key(fn, fmt.Sprintf("AppendRecords[%d]→Sync→success", ai+1)), a.Pos(), n+1, "every success return after the append lies behind wal.Sync()==nil", why+": persisted raft state is still in the WAL manager's user-space buffer when the peer acts on it")
 		}
+		c.Decide(len(ap) >= 1, r1, key(fn, "has:wal.AppendRecords"), fn.Pos(), len(ap)+1, "the record is appended to the WAL (directly or through a helper)", name+" no longer appends its record to the WAL")
 		// mem update after append success
 		mem := Named("go.etcd.io/raft/v3.(*MemoryStorage).Append", "go.etcd.io/raft/v3.(*MemoryStorage).SetHardState", "go.etcd.io/raft/v3.(*MemoryStorage).ApplySnapshot")
 		for i, m := range Calls(fn, false, mem) {
@@ -136,16 +116,36 @@ func C21(c *Ctx) {
 	}
 	if fn := c.Fn("raftstore/peer", "Peer.handleReady"); fn != nil {
 		st := Named("(raftstore/engine.PeerStorage).SetHardState", "(raftstore/engine.PeerStorage).ApplySnapshot", "(raftstore/engine.PeerStorage).Append")
-		sites := need(c, r2, fn, false, "storage mutators", st, 3)
+		// the three persistence calls may live in handleReady or in a helper it calls first (persistReady)
+		owner := fn
+		if len(Calls(fn, false, st)) == 0 {
+			for _, ci := range Calls(fn, false, func(cc *ssa.CallCommon) bool { return true }) {
+				if h := StaticFn(ci.Common()); h != nil && h.Blocks != nil && FuncPkgPath(h) == FuncPkgPath(fn) && len(Calls(h, false, st)) > 0 {
+					owner = h
+					c.Touch(h)
+					errPropagated(c, r2, key(fn, "persist-helper#error-propagated"), fn, ci)
+					break
+				}
+			}
+		}
+		sites := need(c, r2, owner, false, "storage mutators", st, 3)
 		for i, s := range sites {
-			errPropagated(c, r2, key(fn, fmt.Sprintf("storage-mutator[%d]#error-propagated", i+1)), fn, s)
+			errPropagated(c, r2, key(fn, fmt.Sprintf("storage-mutator[%d]#error-propagated", i+1)), owner, s)
 		}
 		// apply of committed entries after the three persistence calls: the apply callback call (dynamic) and applyAdminCommand
-		applyCalls := Calls(fn, false, Named("raftstore/peer.(*Peer).beginApply"))
+		beginApply := deepMatcher(Named("raftstore/peer.(*Peer).beginApply"), FuncPkgPath(fn), 2)
+		applyCalls := Calls(fn, false, beginApply)
+		// persistence sites as seen from handleReady: the mutators themselves or the helper that holds them
+		var persist []ssa.CallInstruction
+		if owner == fn {
+			persist = sites
+		} else {
+			persist = Calls(fn, false, Fnm(owner))
+		}
 		for i, a := range applyCalls {
-			for j, s := range sites {
+			for j, s := range persist {
 				// no path from the apply back to a storage mutator within one Ready: mutators come first
-				c.Decide(!blockReaches(a.Block(), s.Block()) || a.Block() == s.Block(), r2, key(fn, fmt.Sprintf("beginApply[%d]-after-storage-mutator[%d]", i+1, j+1)), a.Pos(), 2, "persistence precedes apply", "committed entries can be applied before the Ready's state was persisted")
+				c.Decide(!blockReaches(a.Block(), s.Block()) || (a.Block() == s.Block() && Dominates(s.(ssa.Instruction), a.(ssa.Instruction))), r2, key(fn, fmt.Sprintf("beginApply[%d]-after-storage-mutator[%d]", i+1, j+1)), a.Pos(), 2, "persistence precedes apply", "committed entries can be applied before the Ready's state was persisted")
 			}
 		}
 	}
@@ -166,7 +166,7 @@ func C21(c *Ctx) {
 			c.Decide(ok, r3, "wal.AppendRecords#caller:"+root, ci.Pos(), 1, "raft storage mutator", "typed WAL records are appended by "+root+" outside the raft storage mutators (no durability point)")
 		}
 	}
-	c.Floor(r3, n, 3, "AppendRecords call sites")
+	c.Floor(r3, n, 1, "AppendRecords call sites")
 }
 
 func C23(c *Ctx) {
@@ -664,4 +664,47 @@ func replayFilterOK(cond ssa.Value, dec ssa.Value) string {
 var pureRaftHelpers = map[string]bool{
 	"go.etcd.io/raft/v3.IsEmptySnap":      true,
 	"go.etcd.io/raft/v3.IsEmptyHardState": true,
+}
+
+// appendThenSync: in f, every success return reachable from a wal.AppendRecords call lies behind
+// a wal.Manager.Sync whose error was tested nil.
+func appendThenSync(c *Ctx, r1 string, fn *ssa.Function) {
+	ap := Calls(fn, false, Named("wal.(*Manager).AppendRecords"))
+	syncs := Calls(fn, false, Named("wal.(*Manager).Sync"))
+	for ai, a := range ap {
+		bad, n := false, 0
+		why := ""
+		for _, r := range SuccessReturns(fn) {
+			// success returns reachable from the append
+			if reach, _ := CutReach(fn, a.(ssa.Instruction), r, nil, nil); !reach {
+				continue
+			}
+			// must pass a Sync whose error was tested nil
+			reach, m := CutReach(fn, a.(ssa.Instruction), r, instrs(syncs), nil)
+			n += m
+			if reach {
+				bad, why = true, "a success return is reachable after AppendRecords without wal.Sync"
+				continue
+			}
+			for _, s := range syncs {
+				if rr, _ := CutReach(fn, s.(ssa.Instruction), r, nil, nil); !rr {
+					continue
+				}
+				ev := ErrResult(s)
+				if ev == nil {
+					bad, why = true, "the error of wal.Sync is discarded"
+					continue
+				}
+				cut := map[[2]*ssa.BasicBlock]bool{}
+				for _, e := range NilEdges(fn, FlowSet(ev)) {
+					cut[e.Nil] = true
+				}
+				if rr, k := CutReach(fn, s.(ssa.Instruction), r, nil, cut); rr {
+					n += k
+					bad, why = true, "a success return is reachable although wal.Sync failed"
+				}
+			}
+		}
+		c.Decide(!bad, r1, key(fn, fmt.Sprintf("AppendRecords[%d]→Sync→success", ai+1)), a.Pos(), n+1, "every success return after the append lies behind wal.Sync()==nil", why+": persisted raft state is still in the WAL manager's user-space buffer when the peer acts on it")
+	}
 }
